@@ -69,7 +69,8 @@ func Analyze(ctx context.Context, scope *ReferenceScope, view *View, fn parser.A
 		}
 
 		if _, ok := fn.Args[0].(parser.AllColumns); ok {
-			fn.Args[0] = parser.NewIntegerValue(1)
+			// The argument list belongs to the syntax tree of the query: count the rows through a copy of it.
+			fn.Args = []parser.QueryExpression{parser.NewIntegerValue(1)}
 		}
 	} else {
 		if err := udfn.CheckArgsLen(fn, fn.Name, len(fn.Args)-1); err != nil {
